@@ -167,7 +167,12 @@ type Store struct {
 	StorageType   string
 	DataSyncs     *SyncTracker
 	InitialState  *pb.PersistentState
+	// Real reports that the store was assembled by configuration.NewBlobAccessFromConfiguration.
+	Real bool
+	opt  OpenOptions
 }
+
+type localState = pb.PersistentState
 
 // SyncTracker wraps the DataSyncer.
 type SyncTracker struct {
@@ -176,8 +181,28 @@ type SyncTracker struct {
 
 var storeSeq int
 
-// Open assembles a store over media, mirroring new_blob_access.go (case Local).
-func Open(g Geometry, m *Media) *Store {
+// Open assembles a store over media: through the repository's own configuration code when the
+// geometry is expressible as a configuration message (the default), otherwise through the
+// hand-written copy of that wiring below. Syncer loops are not started (see OpenWith).
+func Open(g Geometry, m *Media) *Store { return OpenWith(g, m, OpenOptions{}) }
+
+// OpenWith is Open with control over the syncer loops.
+func OpenWith(g Geometry, m *Media, opt OpenOptions) *Store {
+	var s *Store
+	if UseRealWiring && g.Expressible() {
+		s = openReal(g, m, opt)
+	} else {
+		s = openHarness(g, m)
+		if opt.Ctx != nil && g.Persistent {
+			s.startSyncers(opt.Ctx, opt.OnPutLoopExit)
+		}
+	}
+	s.opt = opt
+	return s
+}
+
+// openHarness mirrors new_blob_access.go (case Local) by hand.
+func openHarness(g Geometry, m *Media) *Store {
 	random.CryptoThreadSafeGenerator = m.Rand
 	storeSeq++
 	s := &Store{Geo: g, Media: m, Lock: &vsync.RWMutex{}, Errors: &ErrorLog{}}
@@ -265,8 +290,15 @@ func Open(g Geometry, m *Media) *Store {
 	return s
 }
 
-// StartSyncers launches the two syncer loops as daemon threads; the put loop ends when ctx is cancelled.
+// StartSyncers is kept for harnesses that open first and start later: only valid for the hand wiring.
 func (s *Store) StartSyncers(ctx context.Context, onPutLoopExit func()) {
+	if s.Real {
+		vsched.HarnessFail("StartSyncers on a store assembled by the real wiring: use OpenWith")
+	}
+	s.startSyncers(ctx, onPutLoopExit)
+}
+
+func (s *Store) startSyncers(ctx context.Context, onPutLoopExit func()) {
 	vsched.GoNamed("syncer-release", true, func() {
 		for {
 			s.Syncer.ProcessBlockRelease()
@@ -285,6 +317,7 @@ func (s *Store) StartSyncers(ctx context.Context, onPutLoopExit func()) {
 
 // TrackingStateStore records the state written and when.
 type TrackingStateStore struct {
+	FirstRead *pb.PersistentState
 	Base    local.PersistentStateStore
 	Written []*pb.PersistentState // states whose write returned nil
 	Starts  []time.Time
@@ -294,7 +327,11 @@ type TrackingStateStore struct {
 
 // ReadPersistentState forwards.
 func (t *TrackingStateStore) ReadPersistentState() (*pb.PersistentState, error) {
-	return t.Base.ReadPersistentState()
+	st, err := t.Base.ReadPersistentState()
+	if err == nil && t.FirstRead == nil {
+		t.FirstRead = st
+	}
+	return st, err
 }
 
 // WritePersistentState forwards and records.
@@ -428,6 +465,7 @@ type TrackingAllocator struct {
 	// FailNewBlock is a fault budget: while > 0 each NewBlock may fail (choice point).
 	FailNewBlock int
 	Violations []string
+	Reattached int // successful NewBlockAtLocation calls (restart)
 	Releases   int // Block.Release calls made by the block list (volatile: pops)
 	ReleaseTimes []time.Time // virtual time of each such call
 	// LastWrittenState returns the most recent durably written state (persistent only).
@@ -508,6 +546,7 @@ func (a *TrackingAllocator) NewBlockAtLocation(loc *pb.BlockLocation, writeOffse
 	if !ok {
 		return nil, false
 	}
+	a.Reattached++
 	saved := a.LastWrittenState
 	a.LastWrittenState = nil
 	tb := a.adopt(b, loc)
